@@ -32,7 +32,7 @@ CONV_MEMBERS = [("date",), ("datetime",), ("uuid",), ("decimal",), ("timedelta",
 
 
 def n_cases(tier):
-    return 5000 if tier == "quick" else 120000
+    return 5000 if tier == "quick" else 400000
 
 
 def worker_setup(tier, rec):
